@@ -275,7 +275,12 @@ def judge(chk, s, mline):
             if st != "panic":
                 bad.append("%s (%s): the model refuses loudly (panic), the implementation %s %s" % (tag, term, st, det[:80]))
             continue
-        if L["after"]:
+        if L["after"] and p["shell"] is not None:
+            # the shell is not on PATH in these scenarios: the launch fails before the point of the panic
+            if not (st == "err" and det.startswith("io:2")):
+                bad.append("%s (%s): expected ENOENT for the missing shell, got %s %s" % (tag, term, st, det[:40]))
+                continue
+        elif L["after"]:
             # the process is started, then the terminator panics (piped stdin without input data)
             if st != "panic":
                 bad.append("%s (%s): the model says started-then-panic, the implementation %s" % (tag, term, st))
@@ -360,6 +365,8 @@ def judge(chk, s, mline):
             want = L["data"] if L["data"] is not None else (b"streamed-in" if term == "stream_stdin" else b"")
             if term not in ("popen", "stream_stdin", "capture", "communicate"):
                 pass
+            elif eof is None and L["det"]:
+                pass      # nobody waits for a detached child: it may not have finished reading when the scenario ends
             elif eof is None:
                 bad.append("%s: the child never saw end-of-file on its piped stdin" % tag)
             elif eof.get("bytes") != len(want) or eof.get("fnv") != fnv(want):
